@@ -309,6 +309,7 @@ func run(c *rig.Ctx) {
 			c.Sample(map[string]any{"class": "scene", "lcdc": fmt.Sprintf("%02X", s.lcdc), "scx": s.scx, "scy": s.scy, "wx": s.wx, "wy": s.wy, "objects": s.nobj, "oam_head": fmt.Sprintf("% X", s.oam[:16])})
 		}
 	})
+	sequences(c)
 }
 
 func main() {
